@@ -144,6 +144,12 @@ func faultScenarios(prefix string, workloads int, seed int64, readers bool) []Sc
 		}
 		base := Scenario{Kind: "fault", Seed: seed*2741 + int64(wl), Opts: o, Profile: []string{"half", "quarter", "page", "small"}[wl%4], Observe: true,
 			Params: map[string]int{"warm": 2 + wl%3, "txs": 2, "readers": nr, "k": 0, "short": 0, "switch": map[bool]int{true: 1, false: 0}[wl%3 == 1]}}
+		if wl%4 == 2 {
+			// no warm-up: the failing transactions are the first ones of a fresh database, whose free list is still
+			// empty - every allocation, including that of the freelist page, is at the end of the file
+			base.Params["warm"] = 0
+			base.Params["txs"] = 3
+		}
 		n := countFaultIOs(base)
 		for k := 1; k <= n; k++ {
 			sc := base
